@@ -249,8 +249,8 @@ impl Check for C19 {
     }
     fn cases(&self, tier: Tier) -> u64 {
         match tier {
-            Tier::Quick => 25_000,
-            Tier::Thorough => 1_000_000,
+            Tier::Quick => 50_000,
+            Tier::Thorough => 2_000_000,
         }
     }
     fn one_case(&self, data: &[u8], ctx: &mut Ctx) -> Outcome {
